@@ -321,6 +321,9 @@ THEOREMS = [
     'C07.requested_args_used', 'C07.requested_units_in_snippet',
     # per-atom tensors: names are row-major, the column called p[i][j] holds component (i, j)
     'C07.index_names_row_major', 'C07.index_names_rank2', 'C07.tensor_cells',
+    # fourth round: derived units are composed of the style's own entries (distance x velocity x mass, 1/time,
+    # distance^3); the TIMESTEP item is the whole number the system holds, whatever numeric type carries it
+    'C07.derived_units_composed', 'C07.step_of_whole_number', 'C07.dump_timestep_line',
 ]
 PARTIAL = {
     'inside the written bounds / lo < hi AFTER rounding':
@@ -2455,6 +2458,19 @@ def dump_props_for_wire(c):
     return out
 
 
+def step_token(c):
+    """the time step as the system of a dump case holds it, for the model (`StepVal`): `-` no attribute, `none`,
+    an integer, `r<p/q>` a real number."""
+    form, ts = c.get('tsform'), c.get('timestep', 0)
+    if form == 'absent' or (form is None and not ts):
+        return '-'
+    if form == 'none':
+        return 'none'
+    if form is not None and ('float' in form or form == 'np.longdouble'):
+        return 'r' + cm.fr(float(ts))
+    return str(int(ts))
+
+
 def info_fname(c):
     """the file name the command snippet must name: only a str `f` is one (not an open stream)."""
     f = c.get('fname')
@@ -2488,7 +2504,7 @@ def model_line(c, resolved=None):
     if c['kind'] == 'dump':
         pw = dump_props_for_wire(c)
         ps = ' '.join(f'{nm} {len(sh)}' + ''.join(f' {x}' for x in sh) for nm, sh in pw)
-        return f"dump {ff} {c.get('timestep', 0)} {len(pw)} {ps} {enc_sys(d)} {enc_units(unit_factors(c['units']))}"
+        return f"dump {ff} {step_token(c)} {len(pw)} {ps} {enc_sys(d)} {enc_units(unit_factors(c['units']))}"
     if c['kind'] == 'poscar':
         hw = c['header'].split()
         sy = c['symbols']
